@@ -38,7 +38,7 @@ SYN_TYPES = ["IonotropicSynapse", "TestSynapse"]
 
 
 def budget(tier):
-    return 30 if tier == "quick" else 500
+    return 60 if tier == "quick" else 800
 
 
 # ---------------------------------------------------------------------------------------
@@ -182,6 +182,8 @@ def _chain(draw, spec):
     plan = []
     for lev in levels:
         if draw(st.integers(0, 3)) > 0:
+            if draw(st.integers(0, 2)) == 0:
+                plan.append("scope")  # switch scope right before a level selection
             plan.append(lev)
     extras = draw(st.lists(st.sampled_from(["scope", "loc", "select_nodes", "group", "channel", "syn", "edge_global",
                                              "select_edges", "getitem", "iter"]), max_size=2))
